@@ -891,3 +891,109 @@ def interrupt_retry(ctx):
                               'a correct stream is reported as damaged')
     if n == 0:
         ctx.anchor_missing('plain reads into decoder-owned buffers')
+
+
+@rule('FILL-LOOP', ['C05', 'C12'], floor=1)
+def fill_loop(ctx):
+    """A free helper that reads into the caller's buffer with a plain `read` and whose callers compare the
+    returned count with a required length (to decide "not present" / "end of data") must have fill
+    semantics: the read sits in a loop that accumulates the counts and is left only when the buffer is full
+    or a read returns 0. A single read may legally return fewer bytes than are available (pipes, buffered
+    readers), which would then be mistaken for the end of the data."""
+    F = ctx.facts
+    n = 0
+    for h in F.fns:
+        if h.kind != 'fn' or h.self_adt or h.file.endswith('no_std.rs'):
+            continue
+        if 'usize' not in h.d.get('output', ''):
+            continue
+        reads = [(bi, t) for bi, t, c in h.calls() if is_trait_call(c, READ_TRAITS, 'read') and len(t['args']) > 1]
+        if not reads:
+            continue
+        ph = Prov(h)
+        bparams = [i for i in range(1, h.arg_count + 1) if h.local_ty(i).replace(' ', '') == '&mut[u8]']
+        reads = [(bi, t) for bi, t in reads if any(derives_from_param(h, ph, ph.operand(t['args'][1], 0, '%d:T' % bi), i) for i in bparams)]
+        if not reads:
+            continue
+        # do callers compare the result with a required length?
+        needs = None
+        for g in F.fns:
+            pg = None
+            for bi, t, c in g.calls():
+                if h not in F.resolve_callee(c):
+                    continue
+                pg = pg or Prov(g)
+                holders = value_closure(g, {t['dest']['l']})
+                cnt = {l for l in holders if g.local_ty(l) == 'usize'}
+                # payload of `?`
+                for (b2, blk) in enumerate(g.blocks):
+                    for st in blk['stmts']:
+                        if st['k'] == 'assign' and not st['lhs']['p'] and st['rv']['r'] == 'use':
+                            p = op_place(st['rv']['o'])
+                            if p is not None and p['l'] in holders and p['p'] and g.local_ty(st['lhs']['l']) == 'usize':
+                                cnt.add(st['lhs']['l'])
+                cnt = set(value_closure(g, cnt)) if cnt else cnt
+                for s in g.reachable:
+                    tt = g.blocks[s]['term']
+                    if tt['k'] != 'switch':
+                        continue
+                    cond = pg.operand(tt['discr'], 0, '%d:T' % s)
+                    nc = norm_cmp(cond, True) if cond[0] in ('bin', 'un') else None
+                    if nc and nc[0] in ('Lt', 'Le', 'Eq', 'Ne'):
+                        for side, other in ((nc[1], nc[2]), (nc[2], nc[1])):
+                            if any(x[0] == 'local' and x[1] in cnt for x in expr_walk(side)) or \
+                                    any(x[0] == 'call' and len(x) > 3 and x[3] is t for x in expr_walk(side)):
+                                if not (other[0] == 'const' and other[2] == 0):
+                                    needs = (g, s, expr_str(cond)[:60])
+        if needs is None:
+            continue
+        n += 1
+        key = '%s:fills-or-eof' % h.key
+        ok = False
+        why = 'the read is not inside a loop'
+        for bi, t in reads:
+            loops = [body for hd, body in h.loops().items() if bi in body]
+            if not loops:
+                continue
+            body = min(loops, key=len)
+            d = t['dest']['l']
+            nl = scalar_count_locals(h, d)
+            clo = value_closure(h, {d})
+            zero_exit = False
+            for sb in body:
+                tt = h.blocks[sb]['term']
+                if tt['k'] == 'switch':
+                    p = op_place(tt['discr'])
+                    if p is not None and p['l'] in clo and p['p'] and any(a[0] == '0' and a[1] not in body for a in tt['arms']):
+                        zero_exit = True
+                    if p is not None and p['l'] in clo and p['p'] and any(a[0] == '0' for a in tt['arms']):
+                        # Ok(0) arm that breaks
+                        tgt = [a[1] for a in tt['arms'] if a[0] == '0'][0]
+                        if any(x not in body for x in h.reach_from([tgt]) if h.blocks[x]['term']['k'] in ('goto', 'return')) and \
+                                not any(x in body and x == min(body) for x in [tgt]):
+                            zero_exit = zero_exit or (tgt not in body or any(su not in body for su in h.succs(tgt)))
+                    cond = ph.operand(tt['discr'], 0, '%d:T' % sb)
+                    nc = norm_cmp(cond, True) if cond[0] in ('bin', 'un') else None
+                    if nc and nc[0] in ('Eq', 'Ne') and any(x[0] == 'local' and x[1] in nl for x in expr_walk(cond)) and \
+                            any(x[0] == 'const' and x[2] == 0 for x in (nc[1], nc[2])):
+                        zero_exit = True
+            acc = False
+            for l in range(h.arg_count + 1, len(h.locals)):
+                for (b3, s3, k3, node3) in h.whole_defs(l):
+                    if k3 == 'assign' and b3 in body:
+                        e3 = ph.rvalue(node3['rv'], 0, '%d:%d' % (b3, s3))
+                        if any(y[0] == 'bin' and y[1].startswith('Add') and any(z[0] == 'local' and z[1] == l for z in expr_walk(y[2])) and
+                               any(z[0] == 'local' and z[1] in nl or (z[0] == 'field' and z[2] == '0') for z in expr_walk(y[3])) for y in expr_walk(e3)):
+                            acc = True
+            if zero_exit and acc:
+                ok = True
+            else:
+                why = 'the loop around the read %s' % ('does not accumulate the counts' if zero_exit else 'has no exit on a zero count (it is left after the first successful read)')
+        g, s, ctext = needs
+        if ok:
+            ctx.ok(key, h.loc(reads[0][0]), 'fill loop (accumulates, leaves on 0); result compared in %s (%s)' % (g.key, ctext))
+        else:
+            ctx.violation(key, h.loc(reads[0][0]), '%s compares the count returned by %s with a required length (%s) but %s: a short read of a '
+                          'source that still has data is taken for the end of the data' % (g.key, h.key, ctext, why))
+    if n == 0:
+        ctx.anchor_missing('read helper whose count is compared with a required length')
